@@ -87,7 +87,13 @@ static volatile int g_curOpKind = -1;
 static volatile int g_curOpIndex = -1;
 static Check *g_check = NULL;
 
-static inline void noteOp(int index, int kind) { g_curOpIndex = index; g_curOpKind = kind; }
+static Run *g_curRun = NULL;
+static std::vector<uint64_t> *g_trace = NULL;
+static inline void noteOp(int index, int kind)
+{
+    g_curOpIndex = index; g_curOpKind = kind;
+    if(g_trace && g_curRun) g_trace->push_back(g_curRun->log.h);
+}
 
 static void safeWrite(int fd, const char *s) { size_t n = strlen(s); while(n) { ssize_t w = write(fd, s, n); if(w <= 0) break; s += w; n -= (size_t)w; } }
 
@@ -569,6 +575,37 @@ static int driverMain(Check &c, int argc, char **argv)
         printf("%s hash=%llu\n", run.v.set ? (run.v.cls() + " " + run.v.detail).c_str() : "clean", (unsigned long long)run.log.h);
         return run.v.set ? 1 : 0;
     }
+    if(mode == "--twice")
+    {
+        // execute a plan twice in this process and report the first op whose event-log prefix differs
+        std::string text; Plan plan;
+        if(argc < 3 || !readFile(argv[2], text) || !planFromString(text, plan)) return 2;
+        if(argc > 3) { Plan warm; std::string t2; if(readFile(argv[3], t2) && planFromString(t2, warm)) { Run wr; c.execute(warm, wr); } }
+        std::vector<uint64_t> t1, t2;
+        { Run run; g_curRun = &run; g_trace = &t1; c.execute(plan, run); t1.push_back(run.log.h); }
+        { Run run; g_curRun = &run; g_trace = &t2; c.execute(plan, run); t2.push_back(run.log.h); }
+        g_trace = NULL; g_curRun = NULL;
+        for(size_t i = 0; i < t1.size() && i < t2.size(); ++i)
+            if(t1[i] != t2[i]) { printf("first difference before op %zu (%s); previous op %s\n", i, i < plan.ops.size() ? c.opName(plan.ops[i].kind) : "end", i ? c.opName(plan.ops[i - 1].kind) : "-"); return 1; }
+        printf("identical (%zu marks)\n", t1.size());
+        return 0;
+    }
+    if(mode == "--history")
+    {
+        // re-create a worker's process history: run indices start, start+stride, ... < idx, then idx twice with traces
+        uint64_t start = strtoull(argv[2], NULL, 10), stride = strtoull(argv[3], NULL, 10), idx = strtoull(argv[4], NULL, 10);
+        bool th = argc > 5 && std::string(argv[5]) == "thorough";
+        for(uint64_t i = start; i < idx; i += stride) { Plan p; makePlan(c, baseSeed, i, th, p); Run run; c.execute(p, run); if((i / stride) % 40 == 7 && !run.v.set) { Run again; c.execute(p, again); } }
+        Plan plan; makePlan(c, baseSeed, idx, th, plan);
+        std::vector<uint64_t> t1, t2;
+        { Run run; g_curRun = &run; g_trace = &t1; c.execute(plan, run); t1.push_back(run.log.h); }
+        { Run run; g_curRun = &run; g_trace = &t2; c.execute(plan, run); t2.push_back(run.log.h); }
+        g_trace = NULL; g_curRun = NULL;
+        for(size_t i = 0; i < t1.size() && i < t2.size(); ++i)
+            if(t1[i] != t2[i]) { printf("first difference before op %zu (%s); previous op %zu %s\n", i, i < plan.ops.size() ? c.opName(plan.ops[i].kind) : "end", i - 1, i ? opToString(plan.ops[i - 1], NULL).c_str() : "-"); return 1; }
+        printf("identical (%zu marks)\n", t1.size());
+        return 0;
+    }
     if(mode == "--exec")
     {
         // execute a plan file in-process (for gdb / valgrind)
@@ -623,7 +660,7 @@ static int driverMain(Check &c, int argc, char **argv)
         {
         case 'R': s.curIdx = (int64_t)strtoull(ln.c_str() + 2, NULL, 10); s.curDone = false; break;
         case 'D': s.curDone = true; ++runsDone; break;
-        case 'M': ++mismatches; break;
+        case 'M': ++mismatches; printf("NONDETERMINISM: run index %s re-executed in-process gave a different event log\n", ln.c_str() + 2); break;
         case 'V':
         {
             s.curDone = true; ++runsDone; ++runsViol;
@@ -699,7 +736,7 @@ static int driverMain(Check &c, int argc, char **argv)
     double tExplore = nowSec() - t0;
 
     // ---- process violation classes: known-finding match, determinism gate, minimise, replay file
-    int exitCode = 0; size_t processed = 0;
+    int exitCode = 0; size_t processed = 0; std::map<std::string, int> perTag;
     mkdir((g_root + "/replays").c_str(), 0755);
     for(std::map<std::string, ClassInfo>::iterator it = classes.begin(); it != classes.end(); ++it)
     {
@@ -714,7 +751,9 @@ static int driverMain(Check &c, int argc, char **argv)
                    (unsigned long long)ci.count, (unsigned long long)ci.firstIdx);
             continue;
         }
-        if(processed++ >= 6) { printf("NOTE: further violation class %s (%llu runs) not minimised\n", it->first.c_str(), (unsigned long long)ci.count); exitCode = 1; continue; }
+        // at most 2 minimised classes per oracle tag and 10 overall: the remaining ones are reported, not shrunk
+        if(++perTag[ci.v.tag] > 2 || processed >= 10) { printf("NOTE: further violation class %s (%llu runs, first index %llu) not minimised\n", it->first.c_str(), (unsigned long long)ci.count, (unsigned long long)ci.firstIdx); exitCode = 1; continue; }
+        ++processed;
         // determinism gate 1: same plan, two forked executions, same class
         EvalResult r1 = evalInChild(c, plan, c.cpuBudgetSec(), g_sanitized);
         EvalResult r2 = evalInChild(c, plan, c.cpuBudgetSec(), g_sanitized);
